@@ -25,14 +25,19 @@
 EXTENDS Naturals, Sequences, FiniteSets, TLC, Json
 
 CONSTANTS
-  Inputs,     \* <<[name, fmt, L, olen, opfx, steps, end]>>, one record per input file (extracted):
+  Inputs,     \* <<[name, fmt, L, olen, opfx, steps, end]>>, one record per (input file, environment) (extracted):
+              \*   the environment - ordinary directory, directory not writable for the user, file name so long
+              \*   that no temporary sibling can be named, file not writable - is part of the input: the command
+              \*   takes other paths there, and every path gets its own fault enumeration
               \*   fmt   what `falco fmt FILE` does: "text" (prints L bytes, exit 0), "fail", "panic"
               \*   L     length of the text `falco fmt FILE` prints (0 when fmt # "text")
               \*   olen  length of the original file
               \*   opfx  k >= 0 when the original bytes are exactly the first k bytes of that text
               \*         (k = L: the file is already formatted; k = 0: the file is empty), else L + 1
               \*   steps the calls `falco fmt -w FILE` issues when nothing goes wrong:
-              \*         [op, obj, to, n]  op in Ops, obj/to in {"target","tmp","-"}, n = bytes (write)
+              \*         [op, obj, to, n, res]  op in Ops, obj/to in {"target","tmp","-"}, n = bytes (write),
+              \*         res = "ok" / "err": a call may already fail in the undisturbed run (EACCES on the
+              \*         temporary file in a read-only directory) - then it has no effect
               \*   end   how that run ended: "ok" / "fail" / "panic"
   ShortModes, \* subset of {"one", "half", "allbutone"}: lengths of short writes explored
   MaxFaults   \* injected failing calls per run (kill excluded)
@@ -114,12 +119,12 @@ Cleanups(f) == {f, [f EXCEPT !.tmp = None]}
 
 StepOK ==
   /\ exit = "running" /\ pc <= Len(Steps)
-  /\ fs' = Apply(fs, Steps[pc], Steps[pc].n)
+  /\ fs' = IF Steps[pc].res = "ok" THEN Apply(fs, Steps[pc], Steps[pc].n) ELSE fs
   /\ pc' = pc + 1 /\ UNCHANGED <<inp, exit, sched>>
 
 \* the call fails without effect (EACCES, ENOSPC, EIO ... injected at its entry)
 StepErr ==
-  /\ exit = "running" /\ pc <= Len(Steps) /\ Len(sched) < MaxFaults
+  /\ exit = "running" /\ pc <= Len(Steps) /\ Len(sched) < MaxFaults /\ Steps[pc].res = "ok"
   /\ sched' = Append(sched, [at |-> pc, f |-> "err", k |-> 0])
   /\ \/ /\ exit' = "fail" /\ fs' \in Cleanups(fs) /\ pc' = pc        \* reported, nothing else is touched
      \/ /\ Steps[pc].op = "close"                                    \* a failing close may go unnoticed
@@ -129,7 +134,7 @@ StepErr ==
 \* the write transfers k < n bytes and the rest fails (file size limit, disk full)
 StepShort ==
   /\ exit = "running" /\ pc <= Len(Steps) /\ Len(sched) < MaxFaults
-  /\ Steps[pc].op = "write"
+  /\ Steps[pc].op = "write" /\ Steps[pc].res = "ok"
   /\ \E k \in ShortLens(Steps[pc].n) :
        /\ sched' = Append(sched, [at |-> pc, f |-> "short", k |-> k])
        /\ fs' \in Cleanups(Apply(fs, Steps[pc], k))
@@ -145,6 +150,9 @@ Finish ==
   /\ exit = "running" /\ pc = Len(Steps) + 1
   /\ exit' = In.end /\ UNCHANGED <<inp, pc, fs, sched>>
 
+(* `falco fmt -w a b c` rewrites several files with one command.  The files are independent: the run is   *)
+(* the product of one such machine per file, and the requirement is stated per file (FmtWriteTrace     *)
+(* judges every file of a multi-file run on its own: its bytes, its original, the text fmt prints for it). *)
 Next == StepOK \/ StepErr \/ StepShort \/ Crash \/ Finish
 Spec == Init /\ [][Next]_vars
 
